@@ -147,3 +147,320 @@ Proof.
   - cbn. lia.
   - cbn. lia.
 Qed.
+
+(* ---- operations that only remove ------------------------------------------- *)
+Definition Shrinks (p p' : pool) : Prop :=
+  CI p' /\ incl (ids p') (ids p) /\ p_max_anc p' = p_max_anc p /\
+  p_total_size p' <= p_total_size p /\ p_total_cycles p' <= p_total_cycles p.
+Lemma Shrinks_refl : forall p, CI p -> Shrinks p p.
+Proof. intros. split; [assumption|]. split; [apply incl_refl|]. repeat split; lia. Qed.
+Lemma Shrinks_trans : forall a b c, Shrinks a b -> Shrinks b c -> Shrinks a c.
+Proof.
+  intros a b c (H1&H2&H3&H4&H5) (G1&G2&G3&G4&G5). split; [exact G1|].
+  split; [eapply incl_tran; eauto|]. repeat split; try lia; congruence.
+Qed.
+Lemma EM_Shrinks : forall p p', CI p -> EM p p' -> Shrinks p p'.
+Proof.
+  intros p p' H E. pose proof (EM_ids _ _ E) as I. pose proof (EM_total _ _ E) as [T1 T2].
+  destruct E as [M C]. unfold same_counters in C.
+  split; [eapply EM_CI; eauto; split; auto|].
+  split; [rewrite I; apply incl_refl|]. repeat split; try lia; tauto.
+Qed.
+Lemma remove_entry_Shrinks : forall p id p', CI p -> remove_entry p id = Some p' -> Shrinks p p'.
+Proof.
+  intros p id p' H R. destruct (remove_entry_CI _ _ _ H R) as (A&B&C&D&E).
+  split; [exact A|]. split; [|repeat split; auto]. rewrite B. intros x Hx. apply filter_In in Hx. tauto.
+Qed.
+Lemma remove_entry_gone : forall p id p', CI p -> remove_entry p id = Some p' -> ~ In id (ids p').
+Proof.
+  intros p id p' H R. destruct (remove_entry_CI _ _ _ H R) as (_&B&_). rewrite B.
+  rewrite filter_In. rewrite N.eqb_refl. simpl. intros [_ X]. discriminate.
+Qed.
+Lemma remove_entries_Shrinks : forall l p p', CI p -> remove_entries p l = Some p' -> Shrinks p p'.
+Proof.
+  induction l; simpl; intros p p' H R.
+  - inversion R; subst. apply Shrinks_refl; auto.
+  - destruct (remove_entry p a) as [p1|] eqn:E; [|discriminate].
+    pose proof (remove_entry_Shrinks _ _ _ H E) as S1.
+    eapply Shrinks_trans; [exact S1|]. apply IHl; auto. apply S1.
+Qed.
+Lemma remove_entries_gone : forall l p p' x, CI p -> remove_entries p l = Some p' -> In x l -> ~ In x (ids p').
+Proof.
+  induction l; simpl; intros p p' x H R Hx; [tauto|].
+  destruct (remove_entry p a) as [p1|] eqn:E; [|discriminate].
+  pose proof (remove_entry_Shrinks _ _ _ H E) as S1.
+  destruct Hx as [->|Hx].
+  - pose proof (remove_entry_gone _ _ _ H E) as G.
+    pose proof (remove_entries_Shrinks _ _ _ (proj1 S1) R) as (_&I&_). intro. apply G. apply I. auto.
+  - eapply (IHl p1); [apply S1|exact R|exact Hx].
+Qed.
+Lemma red_Shrinks : forall p id p', CI p -> remove_entry_and_descendants p id = Some p' -> Shrinks p p'.
+Proof.
+  intros p id p' H R. unfold remove_entry_and_descendants in R.
+  set (l := id :: calc_descendants p id) in *.
+  assert (E : EM p (fold_left remove_entry_links l (uncredit_ancestors p l))).
+  { eapply EM_trans; [apply EM_uncredit|apply EM_fold_remove_links]. }
+  pose proof (EM_Shrinks _ _ H E) as S1.
+  eapply Shrinks_trans; [exact S1|]. eapply remove_entries_Shrinks; eauto. apply S1.
+Qed.
+(* the entry and every descendant are gone afterwards *)
+Lemma red_gone : forall p id p' x, CI p -> remove_entry_and_descendants p id = Some p' ->
+  (x = id \/ In x (calc_descendants p id)) -> ~ In x (ids p').
+Proof.
+  intros p id p' x H R Hx. unfold remove_entry_and_descendants in R.
+  set (l := id :: calc_descendants p id) in *.
+  assert (E : EM p (fold_left remove_entry_links l (uncredit_ancestors p l))).
+  { eapply EM_trans; [apply EM_uncredit|apply EM_fold_remove_links]. }
+  eapply remove_entries_gone; [|exact R|].
+  - eapply EM_CI; eauto.
+  - unfold l. simpl. destruct Hx; auto.
+Qed.
+Lemma rawd_Shrinks : forall l p p', CI p -> remove_all_with_descendants p l = Some p' -> Shrinks p p'.
+Proof.
+  induction l; simpl; intros p p' H R.
+  - inversion R; subst. apply Shrinks_refl; auto.
+  - destruct (remove_entry_and_descendants p a) as [p1|] eqn:E; [|discriminate].
+    pose proof (red_Shrinks _ _ _ H E) as S1.
+    eapply Shrinks_trans; [exact S1|]. apply IHl; auto. apply S1.
+Qed.
+Lemma resolve_conflict_inputs_Shrinks : forall l p p', CI p -> resolve_conflict_inputs p l = Some p' -> Shrinks p p'.
+Proof.
+  induction l; simpl; intros p p' H R.
+  - inversion R; subst. apply Shrinks_refl; auto.
+  - match type of R with match ?x with _ => _ end = _ => destruct x as [p2|] eqn:E1; [|discriminate] end.
+    match type of R with match ?x with _ => _ end = _ => destruct x as [p4|] eqn:E2; [|discriminate] end.
+    pose proof (EM_Shrinks _ _ H (EM_set_edges p (adel pt_eqb a (p_inputs p)) (p_deps p) (p_hdeps p))) as S0.
+    pose proof (rawd_Shrinks _ _ _ (proj1 S0) E1) as S1.
+    pose proof (EM_Shrinks _ _ (proj1 S1) (EM_set_edges p2 (p_inputs p2) (adel pt_eqb a (p_deps p2)) (p_hdeps p2))) as S2.
+    pose proof (rawd_Shrinks _ _ _ (proj1 S2) E2) as S3.
+    eapply Shrinks_trans; [exact S0|]. eapply Shrinks_trans; [exact S1|].
+    eapply Shrinks_trans; [exact S2|]. eapply Shrinks_trans; [exact S3|].
+    apply IHl; auto. apply S3.
+Qed.
+Lemma commit_Shrinks : forall p t p', CI p -> commit_tx p t = Some p' -> Shrinks p p'.
+Proof.
+  intros p t p' H R. unfold commit_tx in R.
+  destruct (remove_entry p (tx_id t)) as [p1|] eqn:E; [|discriminate].
+  pose proof (remove_entry_Shrinks _ _ _ H E) as S1.
+  eapply Shrinks_trans; [exact S1|]. eapply resolve_conflict_inputs_Shrinks; eauto. apply S1.
+Qed.
+Lemma limit_loop_Shrinks : forall fuel p m p', CI p -> limit_size_loop fuel p m = Some p' ->
+  Shrinks p p' /\ p_total_size p' <= m.
+Proof.
+  induction fuel; simpl; intros p m p' H R.
+  - destruct (N.leb_spec (p_total_size p) m); [|discriminate]. inversion R; subst.
+    split; [apply Shrinks_refl; auto|auto].
+  - destruct (N.leb_spec (p_total_size p) m).
+    + inversion R; subst. split; [apply Shrinks_refl; auto|auto].
+    + destruct (next_evict p) as [id|]; [|discriminate].
+      destruct (remove_entry_and_descendants p id) as [p1|] eqn:E; [|discriminate].
+      pose proof (red_Shrinks _ _ _ H E) as S1.
+      destruct (IHfuel _ _ _ (proj1 S1) R) as [S2 L]. split; auto. eapply Shrinks_trans; eauto.
+Qed.
+
+(* ---- set_entry -------------------------------------------------------------- *)
+Lemma adel_amod : forall {V} k (f : V -> V) m, adel N.eqb k (amod N.eqb k f m) = adel N.eqb k m.
+Proof.
+  induction m as [|[k' v] m]; simpl; [auto|].
+  destruct (k =? k') eqn:E; simpl; rewrite E; [exact IHm|]. f_equal. exact IHm.
+Qed.
+
+Lemma set_entry_CI : forall p id st p', CI p -> set_entry p id st = Some p' ->
+  CI p' /\ ids p' = ids p /\ p_max_anc p' = p_max_anc p /\
+  p_total_size p' = p_total_size p /\ p_total_cycles p' = p_total_cycles p.
+Proof.
+  intros p id st p' HCI H. unfold set_entry in H.
+  destruct (get p id) as [e|] eqn:G; [|discriminate]. unfold get in G.
+  set (f := fun e0 : entry => mkEntry (e_tx e0) st (e_anc e0) (e_desc e0)) in *.
+  set (es' := amod N.eqb id f (p_entries p)) in *.
+  apply track_spec in H. destruct H as (T1&T2&T3&T4&T5&T6).
+  destruct HCI as [ND HS HC HP HG HPr].
+  assert (K : map fst es' = map fst (p_entries p)) by apply amod_keys.
+  assert (ND' : NoDup (map fst es')) by (rewrite K; exact ND).
+  assert (G' : aget N.eqb id es' = Some (f e)).
+  { unfold es'. rewrite aget_amod, N.eqb_refl, G. reflexivity. }
+  assert (D : adel N.eqb id es' = adel N.eqb id (p_entries p)) by apply adel_amod.
+  pose proof (fun g => sum_of_adel g id _ e ND G) as A.
+  pose proof (fun g => sum_of_adel g id _ (f e) ND' G') as A'.
+  pose proof (T5 Pending) as B3. pose proof (T5 Gap) as B4. pose proof (T5 Proposed) as B5.
+  cbn [count_of set_entries p_pending p_gap p_proposed p_entries p_total_size p_total_cycles p_max_anc] in *.
+  unfold count_status in *.
+  pose proof (A (fun e => tx_size (e_tx e))) as a1. pose proof (A' (fun e => tx_size (e_tx e))) as a1'.
+  pose proof (A (fun e => tx_cycles (e_tx e))) as a2. pose proof (A' (fun e => tx_cycles (e_tx e))) as a2'.
+  pose proof (A (fun e => if status_eqb (e_status e) Pending then 1 else 0)) as a3.
+  pose proof (A' (fun e => if status_eqb (e_status e) Pending then 1 else 0)) as a3'.
+  pose proof (A (fun e => if status_eqb (e_status e) Gap then 1 else 0)) as a4.
+  pose proof (A' (fun e => if status_eqb (e_status e) Gap then 1 else 0)) as a4'.
+  pose proof (A (fun e => if status_eqb (e_status e) Proposed then 1 else 0)) as a5.
+  pose proof (A' (fun e => if status_eqb (e_status e) Proposed then 1 else 0)) as a5'.
+  rewrite D in *. unfold ind in *. cbn [f e_tx e_status] in *.
+  split; [|repeat split; auto].
+  - constructor; unfold ids, count_status; rewrite T1; auto; try lia.
+  - unfold ids. rewrite T1. exact K.
+Qed.
+
+(* ---- add_entry ---------------------------------------------------------------- *)
+Lemma sum_of_cons : forall g k e es, sum_of g ((k, e) :: es) = g e + sum_of g es.
+Proof. reflexivity. Qed.
+Lemma evict_loop_Shrinks : forall cands p count parents p1 parents1, CI p ->
+  evict_loop p cands count parents = Some (p1, parents1) -> Shrinks p p1.
+Proof.
+  induction cands; simpl; intros p count parents p1 parents1 H R.
+  - inversion R; subst. apply Shrinks_refl; auto.
+  - destruct (count <=? p_max_anc p).
+    + inversion R; subst. apply Shrinks_refl; auto.
+    + destruct (remove_entry_and_descendants p a) as [p2|] eqn:E; [|discriminate].
+      pose proof (red_Shrinks _ _ _ H E) as S1.
+      eapply Shrinks_trans; [exact S1|]. eapply IHcands; eauto. apply S1.
+Qed.
+Lemma record_ancestors_EM : forall p t anc par p' a, record_ancestors p t anc par = Some (p', a) -> EM p p'.
+Proof.
+  intros p t anc par p' a H. unfold record_ancestors in H.
+  destruct (add_ancestor_weights p (agg_self t) anc); [|discriminate]. inversion H; subst. apply EM_set_links.
+Qed.
+Lemma check_anc_Shrinks : forall p t p1 a, CI p -> check_and_record_ancestors p t = AncOk p1 a -> Shrinks p p1.
+Proof.
+  intros p t p1 a H R. unfold check_and_record_ancestors in R.
+  match type of R with (if ?c then _ else _) = _ => destruct c end.
+  - match type of R with match ?x with _ => _ end = _ => destruct x as [[p' a']|] eqn:E; [|discriminate] end.
+    inversion R; subst. apply EM_Shrinks; auto. eapply record_ancestors_EM; eauto.
+  - match type of R with (if ?c then _ else _) = _ => destruct c; [|discriminate] end.
+    match type of R with match ?x with _ => _ end = _ => destruct x as [[p2 par2]|] eqn:E; [|discriminate] end.
+    match type of R with (if ?c then _ else _) = _ => destruct c; [|discriminate] end.
+    match type of R with match ?x with _ => _ end = _ => destruct x as [[p' a']|] eqn:E2; [|discriminate] end.
+    inversion R; subst.
+    pose proof (evict_loop_Shrinks _ _ _ _ _ _ H E) as S1.
+    eapply Shrinks_trans; [exact S1|]. apply EM_Shrinks; [apply S1|]. eapply record_ancestors_EM; eauto.
+Qed.
+Lemma EM_record_desc : forall p t, EM p (record_entry_descendants p t).
+Proof.
+  intros. unfold record_entry_descendants.
+  destruct (sdedup _); (eapply EM_trans; [|apply EM_update_anc]); [apply EM_refl|].
+  eapply EM_trans; [apply EM_set_links|apply EM_update_desc].
+Qed.
+
+Lemma add_entry_CI : forall p t st p' code, CI p ->
+  p_total_size p + tx_size t <= U64MAX -> p_total_cycles p + tx_cycles t <= U64MAX ->
+  add_entry p t st = Some (p', code) ->
+  CI p' /\ p_max_anc p' = p_max_anc p /\ incl (ids p') (tx_id t :: ids p).
+Proof.
+  intros p t st p' code HCI Hs Hc H. unfold add_entry in H.
+  destruct (pooled p (tx_id t)) eqn:PO.
+  { inversion H; subst. split; [exact HCI|]. split; [reflexivity|apply incl_tl, incl_refl]. }
+  destruct (check_and_record_ancestors p t) as [p1 a| |] eqn:AN; [| |discriminate].
+  2:{ inversion H; subst. split; [exact HCI|]. split; [reflexivity|apply incl_tl, incl_refl]. }
+  pose proof (check_anc_Shrinks _ _ _ _ HCI AN) as (C1&I1&M1&Z1&Y1).
+  destruct (record_entry_edges p1 t) as [p2|] eqn:RE; [|discriminate].
+  assert (E2 : EM p1 p2).
+  { unfold record_entry_edges in RE. destruct (insert_inputs _ _ _); [|discriminate]. inversion RE; subst. apply EM_set_edges. }
+  set (e := mkEntry t st a (agg_self t)) in *.
+  set (p3 := set_entries p2 ((tx_id t, e) :: p_entries p2)) in *.
+  pose proof (EM_record_desc p3 t) as E4.
+  destruct (track (record_entry_descendants p3 t) None (Some st)) as [p5|] eqn:T; [|discriminate].
+  inversion H; subst p' code; clear H.
+  apply track_spec in T. destruct T as (T1&T2&T3&T4&T5&T6).
+  assert (NI : ~ In (tx_id t) (ids p2)).
+  { rewrite (EM_ids _ _ E2). intro X. apply I1 in X. unfold pooled, get in PO.
+    destruct (aget N.eqb (tx_id t) (p_entries p)) eqn:G; [discriminate|]. apply aget_None_keys in G. auto. }
+  destruct E4 as [[K4 S4] C4]. unfold same_counters in C4. destruct C4 as (c1&c2&c3&c4&c5&c6).
+  destruct E2 as [[K2 S2] C2]. unfold same_counters in C2. destruct C2 as (d1&d2&d3&d4&d5&d6).
+  destruct C1 as [ND HS HC HP HG HPr].
+  pose proof (T5 Pending) as B3. pose proof (T5 Gap) as B4. pose proof (T5 Proposed) as B5.
+  pose proof (S4 _ core_fn_size) as X1. pose proof (S4 _ core_fn_cycles) as X2.
+  pose proof (S4 _ (core_fn_status Pending)) as X3. pose proof (S4 _ (core_fn_status Gap)) as X4.
+  pose proof (S4 _ (core_fn_status Proposed)) as X5.
+  pose proof (S2 _ core_fn_size) as W1. pose proof (S2 _ core_fn_cycles) as W2.
+  pose proof (S2 _ (core_fn_status Pending)) as W3. pose proof (S2 _ (core_fn_status Gap)) as W4.
+  pose proof (S2 _ (core_fn_status Proposed)) as W5.
+  unfold count_status, ind in *.
+  cbn [p3 set_entries p_entries p_total_size p_total_cycles p_pending p_gap p_proposed p_max_anc count_of] in *.
+  rewrite sum_of_cons in X1, X2, X3, X4, X5. cbn [e e_tx e_status] in X1, X2, X3, X4, X5.
+  split; [|split].
+  - constructor; unfold ids, count_status, stat_add;
+      cbn [set_counters p_entries p_total_size p_total_cycles p_pending p_gap p_proposed]; rewrite ?T1.
+    + rewrite K4. simpl. constructor; [exact NI|]. unfold ids in K2. rewrite K2. exact ND.
+    + destruct (N.leb_spec (p_total_size p5 + tx_size t) U64MAX); lia.
+    + destruct (N.leb_spec (p_total_cycles p5 + tx_cycles t) U64MAX); lia.
+    + lia.
+    + lia.
+    + lia.
+  - unfold stat_add. cbn. congruence.
+  - unfold stat_add, ids. cbn [set_counters p_entries]. rewrite T1, K4. simpl.
+    apply incl_cons; [left; auto|]. apply incl_tl. unfold ids in *. rewrite K2. exact I1.
+Qed.
+
+(* ---- every operation ------------------------------------------------------------ *)
+(* no saturation of the two totals when a tx is added; remove_by_detached_proposal
+   (which re-inserts what it removed) is not covered by this theorem *)
+Definition small_op (p : pool) (o : op) : Prop :=
+  match o with
+  | OAdd t _ => p_total_size p + tx_size t <= U64MAX /\ p_total_cycles p + tx_cycles t <= U64MAX
+  | ODetach _ => False
+  | _ => True
+  end.
+
+Theorem counters_step : forall p o p', CI p -> small_op p o -> step p o = Some p' ->
+  CI p' /\ p_max_anc p' = p_max_anc p.
+Proof.
+  intros p o p' H S R. destruct o; simpl in *.
+  - destruct (add_entry p t st) as [[q c]|] eqn:E; [|discriminate]. inversion R; subst.
+    destruct S as [S1 S2]. destruct (add_entry_CI _ _ _ _ _ H S1 S2 E) as (A&B&_). auto.
+  - destruct (remove_entry_Shrinks _ _ _ H R) as (A&_&B&_). auto.
+  - destruct (red_Shrinks _ _ _ H R) as (A&_&B&_). auto.
+  - destruct (commit_Shrinks _ _ _ H R) as (A&_&B&_). auto.
+  - destruct (rawd_Shrinks _ _ _ H R) as (A&_&B&_). auto.
+  - destruct (set_entry_CI _ _ _ _ H R) as (A&_&B&_). auto.
+  - destruct (limit_loop_Shrinks _ _ _ _ H R) as ((A&_&B&_)&_). auto.
+  - destruct (remove_entries_Shrinks _ _ _ H R) as (A&_&B&_). auto.
+  - tauto.
+Qed.
+
+Fixpoint run_small (p : pool) (ops : list op) : Prop :=
+  match ops with
+  | [] => True
+  | o :: r => small_op p o /\ match step p o with Some p' => run_small p' r | None => True end
+  end.
+
+Lemma CI_empty : forall m, CI (empty_pool m).
+Proof. intros. constructor; try reflexivity. constructor. Qed.
+
+Theorem counters_reachable : forall ops p p', CI p -> run_small p ops -> run p ops = Some p' ->
+  CI p' /\ p_max_anc p' = p_max_anc p.
+Proof.
+  induction ops; simpl; intros p p' H S R.
+  - inversion R; subst. auto.
+  - destruct S as [S1 S2]. destruct (step p a) as [q|] eqn:E; [|discriminate].
+    destruct (counters_step _ _ _ H S1 E) as [A B].
+    destruct (IHops _ _ A S2 R) as [C D]. split; auto. congruence.
+Qed.
+
+(* limit_size really gets the pool below the limit *)
+Theorem limit_size_bound : forall p m p', CI p -> limit_size p m = Some p' -> p_total_size p' <= m.
+Proof. intros p m p' H R. eapply limit_loop_Shrinks; eauto. Qed.
+
+(* ---- the boolean clauses --------------------------------------------------------- *)
+Lemma nodupb_NoDup : forall l, nodupb N.eqb l = true <-> NoDup l.
+Proof.
+  induction l; simpl.
+  - split; [constructor|auto].
+  - rewrite andb_true_iff, negb_true_iff, IHl. fold (smem a l). rewrite smem_false.
+    split; [intros [A B]; constructor; auto|inversion 1; auto].
+Qed.
+Definition counters_ok (p : pool) : bool := nodupb N.eqb (ids p) && inv_counters p.
+Lemma counters_ok_CI : forall p, counters_ok p = true <-> CI p.
+Proof.
+  intros. unfold counters_ok, inv_counters. rewrite !andb_true_iff, !N.eqb_eq, nodupb_NoDup.
+  split; [intros (A&(((B&C)&D)&E)&F); constructor; auto|intros []; tauto].
+Qed.
+
+(* ---- replacement (process_rbf): the conflicting txs are gone ---------------------- *)
+Lemma rawd_gone : forall l p p' x, CI p -> remove_all_with_descendants p l = Some p' -> In x l -> ~ In x (ids p').
+Proof.
+  induction l; simpl; intros p p' x H R Hx; [tauto|].
+  destruct (remove_entry_and_descendants p a) as [p1|] eqn:E; [|discriminate].
+  pose proof (red_Shrinks _ _ _ H E) as S1.
+  destruct Hx as [->|Hx].
+  - pose proof (red_gone _ _ _ x H E (or_introl eq_refl)) as G.
+    pose proof (rawd_Shrinks _ _ _ (proj1 S1) R) as (_&I&_). intro. apply G. apply I. auto.
+  - eapply (IHl p1); [apply S1|exact R|exact Hx].
+Qed.
